@@ -44,12 +44,12 @@ type ActKey struct {
 	Name   string
 }
 type Action struct {
-	Entity     uint32
-	Name       string
-	Sec        int64
-	Nanos      int32
-	Data       []byte
-	HasTS      bool
+	Entity uint32
+	Name   string
+	Sec    int64
+	Nanos  int32
+	Data   []byte
+	HasTS  bool
 }
 type Asset struct {
 	ID          uint32
@@ -144,8 +144,8 @@ type Model struct {
 	Conns     map[int]*Conn
 	SeenUUIDs map[string]bool
 	// statistics for evidence
-	Ended int // sessions ended
-	Reused int // session ids reused
+	Ended   int // sessions ended
+	Reused  int // session ids reused
 	everSID map[string]bool
 }
 
@@ -187,8 +187,8 @@ type Req struct {
 	Pose       *Pose
 	Recipients []uint32
 	// action
-	ActNil   bool
-	ActTS    *timestamppb.Timestamp
+	ActNil bool
+	ActTS  *timestamppb.Timestamp
 	// signed latency
 	Count  uint32
 	Wallet string
@@ -198,8 +198,8 @@ type Req struct {
 	// close
 	How string
 	// dagaz
-	Quads [][6]float32
-	Ray   [6]float32
+	Quads    [][6]float32
+	Ray      [6]float32
 	Min, Max [3]float32
 }
 
@@ -319,13 +319,13 @@ func (v Violation) String() string {
 
 // Outcome is what the model says about one executed request.
 type Outcome struct {
-	Viol    []Violation
-	Must    map[int][]Pat // relays each other connection must receive exactly once
-	May     map[int][]Pat // relays another connection may receive at most once
-	Closed  bool          // the requester's connection ended (model updated)
+	Viol     []Violation
+	Must     map[int][]Pat // relays each other connection must receive exactly once
+	May      map[int][]Pat // relays another connection may receive at most once
+	Closed   bool          // the requester's connection ended (model updated)
 	Accepted bool
-	Refused bool
-	Reason  string
+	Refused  bool
+	Reason   string
 	// learned ids
 	NewEntity uint32
 	NewType   uint32
